@@ -8,6 +8,7 @@
    the implementation (harness/props/c09.py). *)
 From Coq Require Import List Arith ZArith.
 Require Import SP.Model.Sched SP.Proofs.SchedPrio.
+Require Import SP.Model.Alap SP.Proofs.AlapProofs.
 
 Theorem C09_lowest_priority_harmless : forall (p : project) (x : task),
   t_leaf x = true ->
@@ -24,3 +25,17 @@ Theorem C09_served_last : forall (p : project) (x : task),
   t_leaf x = true -> (forall t, t < length (p_tasks p) -> (t_prio x < t_prio (task_of p t))%Z) ->
   sorted_leaves (extend p x) = sorted_leaves p ++ (length (p_tasks p) :: nil).
 Proof. intros p x H1 H2. now apply sorted_leaves_extend. Qed.
+
+(* ---- backward (ALAP) mode: the project record is read backwards (Model/Alap.v: t_deps = successor edges,
+   t_pin = own end, t_lb = earliest deadline of the enclosing containers, n = p_upper slots) and the schedule
+   is the mirror image of the forward schedule of the mirrored project *)
+(* the new task is nobody's successor (it has no predecessor); it may have any effort, team, limits,
+   deadline and successors of its own *)
+Theorem C09_alap : forall (p : project) (x : task),
+  t_leaf x = true ->
+  (forall t, t < length (p_tasks p) -> (t_prio x < t_prio (task_of p t))%Z) ->
+  (forall t d, t < length (p_tasks p) -> In d (t_deps (task_of p t)) -> d_task d <> length (p_tasks p)) ->
+  (forall t, t < length (p_tasks p) -> ~ In (length (p_tasks p)) (t_leaves (task_of p t))) ->
+  forall u, u <> length (p_tasks p) -> alap_dates (extend p x) u = alap_dates p u.
+Proof. exact alap_lowest_priority_harmless. Qed.
+Print Assumptions C09_alap.
